@@ -789,6 +789,8 @@ class Deser:
         if not body:
             return 'Some (None, bs)'          # the branch calls nothing
         st, rest = body[0], body[1:]
+        if isinstance(st, ast.Raise):
+            return 'None'                     # every exception is a reject; what follows is dead
         # interpreter call (must be the last statement)
         c = None
         if isinstance(st, ast.Expr) and isinstance(st.value, ast.Call):
@@ -832,6 +834,11 @@ class Deser:
                     env2 = dict(env)
                     env2[x] = 'term'
                     return f'match stack_at {k} tr with Some {cname(x)} => {self.stmts(rest, env2)} | None => None end'
+                sl = self.raw_slice(v, env)
+                if sl is not None:
+                    env2 = dict(env)
+                    env2[x] = ('slice', sl)
+                    return self.stmts(rest, env2)
                 # keys = [next_byte(..) for _ in range(n)]
                 if isinstance(v, ast.ListComp) and len(v.generators) == 1 and isinstance(v.elt, ast.Call) \
                         and isinstance(v.elt.func, ast.Name) and v.elt.func.id == 'next_byte' \
@@ -863,8 +870,9 @@ class Deser:
                     z = self.zipexpr(v.args[0], env)
                     env2 = dict(env)
                     env2[x] = 'delta'
-                    return (f'match {z[0]} with Some z => let {cname(x)} := mk_dict ({z[1]} z) in '
+                    core = (f'match {z[0]} with Some z => let {cname(x)} := mk_dict ({z[1]} z) in '
                             f'{self.stmts(rest, env2)} | None => None end')
+                    return z[2] + core + z[3]
                 # claim = interpreter.claims[0]
                 if ast.unparse(v) == f'{self.I}.claims[0]':
                     env2 = dict(env)
@@ -945,18 +953,69 @@ class Deser:
         h = self.helpers.get(f.id)
         return h is not None and alpha(h) == alpha(ast.parse(REF_ASSERT_IS_PATTERN).body[0])
 
-    def zipexpr(self, e, env):
-        """any nesting of list(..) / reversed(..) around zip(keys, values, strict=True) -> (zip text, rev | id)"""
+    def raw_slice(self, e, env):
+        """interpreter.stack[-(n + 1) : -1] (the entries below the top, bottom first) -> n"""
+        if isinstance(e, ast.Subscript) and ast.unparse(e.value) == f'{self.I}.stack' and isinstance(e.slice, ast.Slice) \
+                and e.slice.step is None and e.slice.upper is not None and ast.unparse(e.slice.upper) == '-1':
+            lo = e.slice.lower
+            if isinstance(lo, ast.UnaryOp) and isinstance(lo.op, ast.USub) and isinstance(lo.operand, ast.BinOp) \
+                    and isinstance(lo.operand.op, ast.Add) and isinstance(lo.operand.left, ast.Name) \
+                    and env.get(lo.operand.left.id) == 'N' and isinstance(lo.operand.right, ast.Constant) \
+                    and lo.operand.right.value == 1:
+                return cname(lo.operand.left.id)
+        return None
+
+    def strip_rev(self, e):
+        """peel list(..) / reversed(..): -> (core, number of reversals mod 2)"""
         nrev = 0
         while isinstance(e, ast.Call) and isinstance(e.func, ast.Name) and e.func.id in ('reversed', 'list') \
                 and len(e.args) == 1 and not e.keywords:
             nrev += e.func.id == 'reversed'
             e = e.args[0]
-        post = 'rev' if nrev % 2 else ''
+        return e, nrev % 2
+
+    def zipexpr(self, e, env):
+        """dict argument: any nesting of list(..)/reversed(..) around zip(K, V, strict=True), where K is the key list
+        (possibly reversed) and V the plugs -- already checked (`values`, top first) or `map(expect_pattern, S)` /
+        `[expect_pattern(p) for p in S]` over the stack slice S (bottom first) or its reversal (top first).
+        zip(reversed K, reversed V) lists the pairs of zip(K, V) backwards (the strict zip raises in both or in none);
+        keys and plugs running in OPPOSITE directions pair other things and are not accepted.
+        -> (zip text, rev | id, prefix, suffix)"""
+        e, nrev = self.strip_rev(e)
+        pre, suf = '', ''
         if isinstance(e, ast.Call) and isinstance(e.func, ast.Name) and e.func.id == 'zip' and len(e.args) == 2 \
-                and [(k.arg, ast.unparse(k.value)) for k in e.keywords] == [('strict', 'True')] \
-                and all(isinstance(a, ast.Name) for a in e.args) and env.get(e.args[0].id) == 'listN' and env.get(e.args[1].id) == 'pats':
-            return f'zip_strict {cname(e.args[0].id)} {cname(e.args[1].id)}', post or 'id'
+                and [(k.arg, ast.unparse(k.value)) for k in e.keywords] == [('strict', 'True')]:
+            ke, krev = self.strip_rev(e.args[0])
+            ve = e.args[1]
+            if not (isinstance(ke, ast.Name) and env.get(ke.id) == 'listN'):
+                fail('zip: first argument is not the key list', e)
+            if isinstance(ve, ast.Name) and env.get(ve.id) == 'pats':
+                vname, vrev = cname(ve.id), 0                   # top first, like the keys as read
+            else:
+                f = src = None
+                if isinstance(ve, ast.Call) and isinstance(ve.func, ast.Name) and ve.func.id == 'map' and len(ve.args) == 2 \
+                        and isinstance(ve.args[0], ast.Name):
+                    f, src = ve.args[0], ve.args[1]
+                elif isinstance(ve, (ast.ListComp, ast.GeneratorExp)) and len(ve.generators) == 1 and not ve.generators[0].ifs \
+                        and isinstance(ve.elt, ast.Call) and isinstance(ve.elt.func, ast.Name) and len(ve.elt.args) == 1 \
+                        and ast.unparse(ve.elt.args[0]) == ast.unparse(ve.generators[0].target):
+                    f, src = ve.elt.func, ve.generators[0].iter
+                if f is None or not self.is_expect_pattern(f, env):
+                    fail('zip: second argument is not the checked plugs', e)
+                src, srev = self.strip_rev(src)
+                n = self.raw_slice(src, env)
+                if n is None and isinstance(src, ast.Name) and isinstance(env.get(src.id), tuple) and env[src.id][0] == 'slice':
+                    n = env[src.id][1]
+                if n is None:
+                    fail('zip: plugs are not the stack slice below the target', e)
+                vrev = 1 - srev                                  # the raw slice is bottom first = reversed w.r.t. top first
+                vname = self.fresh('vals')
+                pre = f'match all_pats (stack_below_top {n} tr) with Some {vname} => '
+                suf = ' | None => None end'
+            if krev != vrev:
+                fail('zip: keys and plugs run in opposite directions', e)
+            post = 'rev' if (nrev + krev) % 2 else 'id'
+            return f'zip_strict {cname(ke.id)} {vname}', post, pre, suf
         fail('dict(...) argument outside the subset', e)
 
     def phase_chain(self, st, env):
@@ -1004,12 +1063,133 @@ class Wrap:
         return core
 
 
+def inline_constants(tree, fn):
+    """a module-level `NAME = <int>` (assigned once, never rebound in the function) = its value"""
+    import copy
+    consts = {}
+    for n in tree.body:
+        tgt = val = None
+        if isinstance(n, ast.Assign) and len(n.targets) == 1 and isinstance(n.targets[0], ast.Name):
+            tgt, val = n.targets[0].id, n.value
+        elif isinstance(n, ast.AnnAssign) and isinstance(n.target, ast.Name) and n.value is not None:
+            tgt, val = n.target.id, n.value
+        if tgt and isinstance(val, ast.Constant) and isinstance(val.value, int) and not isinstance(val.value, bool):
+            consts[tgt] = None if tgt in consts else val.value
+    stores = {nd.id for nd in ast.walk(fn) if isinstance(nd, ast.Name) and isinstance(nd.ctx, ast.Store)} | \
+             {a.arg for nd in ast.walk(fn) if isinstance(nd, ast.arguments) for a in nd.args}
+    consts = {k: v for k, v in consts.items() if v is not None and k not in stores}
+    if not consts:
+        return fn
+
+    class T(ast.NodeTransformer):
+        def visit_Name(self, node):
+            if isinstance(node.ctx, ast.Load) and node.id in consts:
+                return ast.copy_location(ast.Constant(value=consts[node.id]), node)
+            return node
+    return ast.fix_missing_locations(T().visit(copy.deepcopy(fn)))
+
+
+def declass_readers(tree, fn):
+    """closures sharing `nonlocal` state  ==  methods of a private class holding that state:
+         class _R:  __init__(self, p): self._a = p; self._i = <const>      r = _R(data)
+                    def m(self, ..): .. self._a .. self._i .. self.m2(..)   ... r.m(..) ...
+       is rewritten into   i = <const>;  def m(..): nonlocal i; .. data .. i .. m2(..)   and   m(..)
+       (one instance, created by the first statement of the function and never passed on)"""
+    import copy
+    if not (fn.body and isinstance(fn.body[0], ast.Assign) and len(fn.body[0].targets) == 1
+            and isinstance(fn.body[0].targets[0], ast.Name) and isinstance(fn.body[0].value, ast.Call)
+            and isinstance(fn.body[0].value.func, ast.Name)):
+        return tree, fn
+    inst, cname_ = fn.body[0].targets[0].id, fn.body[0].value.func.id
+    cls = [n for n in tree.body if isinstance(n, ast.ClassDef) and n.name == cname_]
+    if len(cls) != 1 or not cname_.startswith('_'):
+        return tree, fn
+    cls = cls[0]
+    call = fn.body[0].value
+    if cls.bases or cls.decorator_list or call.keywords or not all(isinstance(a, ast.Name) for a in call.args):
+        fail('reader class outside the subset', cls)
+    methods = [m for m in cls.body if isinstance(m, ast.FunctionDef)]
+    if [m for m in cls.body if not isinstance(m, ast.FunctionDef)
+            and not (isinstance(m, ast.Expr) and isinstance(m.value, ast.Constant))]:
+        fail('reader class has class-level statements', cls)
+    init = [m for m in methods if m.name == '__init__']
+    if len(init) != 1 or len(init[0].args.args) != 1 + len(call.args):
+        fail('reader class: __init__ does not take the constructor arguments', cls)
+    attr = {}          # attribute -> ('param', outer name) | ('state', local name, constant)
+    params = {a.arg: c.id for a, c in zip(init[0].args.args[1:], call.args)}
+    for st in init[0].body:
+        if isinstance(st, ast.Expr) and isinstance(st.value, ast.Constant):
+            continue
+        if isinstance(st, ast.Assign) and len(st.targets) == 1 and isinstance(st.targets[0], ast.Attribute) \
+                and isinstance(st.targets[0].value, ast.Name) and st.targets[0].value.id == 'self':
+            a = st.targets[0].attr
+            if isinstance(st.value, ast.Name) and st.value.id in params:
+                attr[a] = ('param', params[st.value.id])
+                continue
+            if isinstance(st.value, ast.Constant):
+                attr[a] = ('state', a.lstrip('_') or a, st.value)
+                continue
+        fail('reader class: __init__ outside the subset', st)
+    mnames = {m.name for m in methods if m.name != '__init__'}
+    for nd in ast.walk(fn):
+        if isinstance(nd, ast.Name) and nd.id == inst and isinstance(nd.ctx, ast.Load):
+            pass
+    # every use of the instance must be a call of one of its methods
+    uses = [nd for nd in ast.walk(fn) if isinstance(nd, ast.Name) and nd.id == inst and isinstance(nd.ctx, ast.Load)]
+    meth_uses = [nd for nd in ast.walk(fn) if isinstance(nd, ast.Attribute) and isinstance(nd.value, ast.Name)
+                 and nd.value.id == inst and nd.attr in mnames]
+    if len(uses) != len(meth_uses):
+        fail('reader instance is used otherwise than through its methods', fn)
+
+    class M(ast.NodeTransformer):
+        def visit_Attribute(self, node):
+            if isinstance(node.value, ast.Name) and node.value.id == 'self':
+                if node.attr in attr:
+                    a = attr[node.attr]
+                    return ast.copy_location(ast.Name(id=a[1], ctx=node.ctx), node)
+                if node.attr in mnames:
+                    return ast.copy_location(ast.Name(id=node.attr, ctx=ast.Load()), node)
+                fail('reader class: unknown attribute self.' + node.attr, node)
+            return self.generic_visit(node)
+    closures = []
+    for a in attr.values():
+        if a[0] == 'state':
+            closures.append(ast.Assign(targets=[ast.Name(id=a[1], ctx=ast.Store())], value=a[2], lineno=cls.lineno))
+    for m in methods:
+        if m.name == '__init__':
+            continue
+        if m.decorator_list or not m.args.args or m.args.args[0].arg != 'self':
+            fail('reader class: method outside the subset', m)
+        f = copy.deepcopy(m)
+        f.args.args = f.args.args[1:]
+        body = [M().visit(b) for b in f.body]
+        if body and isinstance(body[0], ast.Expr) and isinstance(body[0].value, ast.Constant) and isinstance(body[0].value.value, str):
+            body = body[1:]
+        stored = {nd.id for b in body for nd in ast.walk(b) if isinstance(nd, ast.Name) and isinstance(nd.ctx, ast.Store)}
+        nl = [a[1] for a in attr.values() if a[0] == 'state' and a[1] in stored]
+        if nl:
+            body = [ast.Nonlocal(names=nl)] + body
+        f.body = body
+        closures.append(f)
+
+    class U(ast.NodeTransformer):
+        def visit_Attribute(self, node):
+            if isinstance(node.value, ast.Name) and node.value.id == inst and node.attr in mnames:
+                return ast.copy_location(ast.Name(id=node.attr, ctx=ast.Load()), node)
+            return self.generic_visit(node)
+    fn2 = copy.deepcopy(fn)
+    fn2.body = closures + [U().visit(b) for b in fn2.body[1:]]
+    return tree, ast.fix_missing_locations(fn2)
+
+
 def deserializer(src, opnames):
     tree = ast.parse(src)
     fns = [n for n in tree.body if isinstance(n, ast.FunctionDef) and n.name == 'deserialize_instructions']
     if len(fns) != 1:
         fail('deserialize_instructions not found')
     fn = fns[0]
+    tree, fn = declass_readers(tree, fn)
+    fn = inline_constants(tree, fn)
     # private module-level helper functions: inlined where the dispatch calls them
     helpers = {n.name: n for n in tree.body if isinstance(n, ast.FunctionDef) and n.name.startswith('_')}
     if len(fn.args.args) != 2:
@@ -1036,6 +1216,17 @@ def deserializer(src, opnames):
         test = ast.Compare(left=ast.NamedExpr(target=ast.Name(id=x, ctx=ast.Store()), value=loop.body[0].value),
                            ops=[ast.IsNot()], comparators=[ast.Constant(value=None)])
         loop = ast.fix_missing_locations(ast.While(test=test, body=loop.body[2:], orelse=loop.orelse, lineno=loop.lineno))
+    # `for x in iter(f, None): ...`  ==  `while (x := f()) is not None: ...`   (iter(callable, sentinel) stops at the
+    # first value EQUAL to the sentinel; a byte is an int and never equals None)
+    if isinstance(loop, ast.For) and isinstance(loop.target, ast.Name) and not loop.orelse and isinstance(loop.iter, ast.Call) \
+            and isinstance(loop.iter.func, ast.Name) and loop.iter.func.id == 'iter' and len(loop.iter.args) == 2 \
+            and isinstance(loop.iter.args[0], ast.Name) and isinstance(loop.iter.args[1], ast.Constant) \
+            and loop.iter.args[1].value is None \
+            and not any(isinstance(nd, (ast.Break, ast.Continue)) for b in loop.body for nd in ast.walk(b)):
+        test = ast.Compare(left=ast.NamedExpr(target=ast.Name(id=loop.target.id, ctx=ast.Store()),
+                                              value=ast.Call(func=loop.iter.args[0], args=[], keywords=[])),
+                           ops=[ast.IsNot()], comparators=[ast.Constant(value=None)])
+        loop = ast.fix_missing_locations(ast.While(test=test, body=loop.body, orelse=[], lineno=loop.lineno))
     refloop = ast.parse(REF_LOOPHEAD).body[0]
     if not isinstance(loop, ast.While) or loop.orelse or len(loop.body) != 2:
         fail('the loop is not `while byte: try Instruction(byte); dispatch`', loop)
